@@ -465,6 +465,30 @@ def _coverage(v, lo, hi):
     return sorted(out, key=str)
 
 
+def _interp_transposed(imod, periodic):
+    """does compute_interpolant, read on a periodic / clamped space, use its factorisation transposed?  True / False / None (not followed:
+    no single solve with `self._splu` resp. `self._solveFunc`, a `trans` that is not a literal)"""
+    try:
+        cb = Specialiser(imod, "SplineInterpolator1D", facts={"self._basis.periodic": periodic, "self._basis._periodic": periodic}).run("compute_interpolant")
+    except Exception:
+        return None
+    want = "self._splu.solve" if periodic else "self._solveFunc"
+    calls = [c for st in _flat(cb) for c in own_exprs(st) if isinstance(c, ast.Call) and src(c.func) == want]
+    if len(calls) != 1:
+        return None
+    c = calls[0]
+    tr = [k.value for k in c.keywords if k.arg == "trans"] or list(c.args[1:2] if periodic else c.args[5:6])
+    if not tr:
+        return False
+    if not isinstance(tr[0], ast.Constant):
+        return None
+    if tr[0].value in ("N", 0, False):
+        return False
+    if tr[0].value in ("T", "H", 1, 2, True):
+        return True
+    return None
+
+
 def weights_mechanism(chk):
     imod = chk.mod(U.INTERP)
     fn = chk.func(U.INTERP, QF)
@@ -488,11 +512,20 @@ def weights_mechanism(chk):
         if _same(R.ret.length, N) and cov is not None and len(cov) == 1 and isinstance(cov[0][0], tuple) and _same(cov[0][1], 0) and not cov[0][2]:
             solve = R.solves[cov[0][0][1]]
             call, _rhs, tr = solve
-            if tr is not None and isinstance(tr, ast.Constant) and tr.value in ("T", "H"):
+            # ASSUMPTION: the LU kept as `self._splu` is that of the matrix A with A c = u.  What is actually required is RELATIONAL:
+            # the interpolation solves with the factorisation one way, the quadrature must solve with it the other way.  `interp_T`
+            # says which way compute_interpolant uses it on a periodic space (None: not followed).
+            interp_T = _interp_transposed(imod, True)
+            quad_T = True if (tr is not None and isinstance(tr, ast.Constant) and tr.value in ("T", "H")) else \
+                False if (tr is None or (isinstance(tr, ast.Constant) and tr.value == "N")) else None
+            if interp_T is None or quad_T is None:
+                okp, why = None, "which of the two systems (A or its transpose) the interpolation and the quadrature solve is not followed"
+            elif quad_T != interp_T:
                 okp = True
-            elif tr is None or (isinstance(tr, ast.Constant) and tr.value == "N"):
+            else:
                 okp = False
-                badp = (f"the weights returned are the result of `{src(call)[:70]}`, which solves A w = I with the interpolation matrix itself, "
+                badp = (f"the weights returned are the result of `{src(call)[:70]}`, which solves the SAME system as the interpolation does "
+                        "(A w = I with the interpolation matrix itself), "
                         "not with its transpose: the result is not the vector of quadrature weights (u.w differs from the integral of the "
                         "interpolant as soon as the collocation matrix is not symmetric, e.g. on a non-uniform periodic grid)")
         elif not R.solves:
@@ -502,7 +535,7 @@ def weights_mechanism(chk):
     elif why is None:
         why = "no value returned on the periodic path"
     chk.ob("Q1-transposed-solve", (solve[0] if solve else None) or (rets[0] if rets else fn), "periodic: splu.solve(folded integrals, trans='T')", okp,
-           "the periodic weights solve the transposed system with the interpolation LU" if okp else
+           "the periodic weights solve, with the interpolation LU, the transpose of the system the interpolation solves" if okp else
            (badp or f"periodic path not followed: {why}"), file=U.INTERP, func=QF)
     # ---- periodic: the right-hand side is I[:n] (a copy) with I[n:] added onto its first p entries
     periodic_fold(chk, fn, R, solve, why)
@@ -560,11 +593,18 @@ def weights_mechanism(chk):
                 b_ok = _same(vb.length, N) and cov == [("I", sp.Integer(0), False)] and not Rc.shared_writes and not Rc.buffered
             except Unk:
                 b_ok = False
+        # relational (see the periodic path): the quadrature must use the factors the other way than compute_interpolant does
+        interp_Tc = _interp_transposed(imod, False)
+        quad_Tc = False if (not tr or (isinstance(tr[0], ast.Constant) and tr[0].value in (False, 0, "N"))) else \
+            True if (isinstance(tr[0], ast.Constant) and tr[0].value in (True, 1, 2, "T", "H")) else None
         if wrong:
             badc = "; ".join(wrong) + ": the banded solve is given the factors of the interpolation matrix in the wrong places"
-        elif not tr or (isinstance(tr[0], ast.Constant) and tr[0].value in (False, 0, "N")):
-            badc = (f"`{src(call)[:80]}` solves A w = I, not the transposed system: the result is not the vector of quadrature weights")
-        elif not unknown and b_ok and isinstance(tr[0], ast.Constant) and tr[0].value in (True, 1, 2, "T", "H"):
+        elif interp_Tc is None or quad_Tc is None:
+            badc = None
+        elif quad_Tc == interp_Tc:
+            badc = (f"`{src(call)[:80]}` solves the same system as the interpolation (A w = I), not the transposed one: the result is not the "
+                    "vector of quadrature weights")
+        elif not unknown and b_ok:
             okc = True
     chk.pat("Q1-transposed-solve", rets[0] if rets else fn, "clamped: solve(A, integrals, trans=True)", okc,
             "the weights solve the transposed collocation system with the interpolation factors and the stored basis integrals", badc,
@@ -577,7 +617,22 @@ def weights_mechanism(chk):
             if d not in [x[1] for x in allm]:
                 allm.append((node, d))
     muts = allm
-    chk.ob("G2-no-shared-mutation", muts[0][0] if muts else fn, "get_quadrature_coefficients vs basis.integrals", not muts,
+    verdict_g2 = not muts
+    if muts:
+        # ASSUMPTION of VIOLATED: `basis.integrals` hands out the array the basis keeps (not a copy made on every access).  Read off the
+        # property (or plain attribute) of BSplines; a property that copies, or whose body is not followed, makes the write harmless or
+        # unknown: UNDECIDED.
+        hands_out = False
+        try:
+            prop = chk.mod(U.SPLINES).methods("BSplines").get("integrals")
+            if prop is not None:
+                rets_ = [r.value for r in ast.walk(prop) if isinstance(r, ast.Return)]
+                hands_out = bool(rets_) and all(r is not None and isinstance(r, ast.Attribute) and src(r.value) == "self" for r in rets_)
+        except Exception:
+            hands_out = False
+        if not hands_out and not all("._integrals" in d for _n, d in muts):
+            verdict_g2 = None
+    chk.ob("G2-no-shared-mutation", muts[0][0] if muts else fn, "get_quadrature_coefficients vs basis.integrals", verdict_g2,
            "the stored basis integrals are only read" if not muts else "; ".join(d for _, d in muts) +
            " - a second request (or another interpolator on the same basis) gets wrong weights", file=U.INTERP, func=QF)
     # ---- the factorisation used here is the one compute_interpolant uses (same attributes)
@@ -649,6 +704,14 @@ def periodic_fold(chk, fn, R, solve, why):
                 ok = False
                 bad = (f"the integrals [{slo}, {sp.expand(slo + thi - tlo)}) are added onto the entries [{tlo}, {thi}): the wrapped copies are "
                        "the entries [n, n+p) and belong to the first p basis functions [0, p)")
+    if ok is False:
+        # ASSUMPTION of VIOLATED: the basis stores, on a periodic space, one integral per UNWRAPPED function (ncells + degree entries, the
+        # wrapped copies in the last `degree` entries carrying a part of their own).  That is a contract with BSplines._build_integrals: a
+        # producer that stores the n full integrals (already folded) needs no fold here.  Read off the producer; otherwise UNDECIDED.
+        sizes = _producer_sizes(chk)
+        if not (sizes and all(sz is not None and _same(sz, NC + D) for (cu_, per_), sz in sizes.items() if per_)):
+            ok, bad = None, ((bad or "") + " - but BSplines._build_integrals was not established to store ncells + degree integrals on a periodic "
+                             "space (the fold may have moved to the producer): not decided")
     chk.ob("Q2-periodic-fold", node, "I[:n] (copy) with I[n:] added onto the first p entries", ok,
            "because c[n+i] = c[i], the integrals of the p wrapped copies are added to the first p basis integrals, on a copy" if ok else
            (bad or f"right-hand side of the periodic solve not followed: {why or 'its pieces are not slices of the stored integrals'}"),
@@ -934,11 +997,39 @@ def boundary_reduction(cu, dx_names, val_names):
     return True, None, node
 
 
+def _producer_sizes(chk):
+    """number of entries BSplines._build_integrals allocates for the integrals on each kind of space: {(cubic uniform, periodic): size | None}"""
+    try:
+        smod = chk.mod(U.SPLINES)
+        out = {}
+        for cu in (True, False):
+            for per in (True, False):
+                body = Specialiser(smod, "BSplines", facts=_facts(cu, per)).run("_build_integrals")
+                allocs = [st for st in _flat(body) if isinstance(st, ast.Assign) and _is_integrals(st.targets[0]) and isinstance(st.value, ast.Call)
+                          and src(st.value.func) in ("np.empty", "np.zeros", "np.ones", "np.full") and st.value.args]
+                out[(cu, per)] = _int_attr(allocs[0].value.args[0], _space_table(per)) if len(allocs) == 1 else None
+        return out
+    except Exception:
+        return None
+
+
+def _consumer_folds(chk):
+    """the quadrature was established to fold the last `degree` stored integrals onto the first ones (rule Q2 holds): it then needs
+    ncells + degree stored integrals on a periodic space, the wrapped copies carrying only what is to be added"""
+    from ..core import HOLDS
+    obs = [o for o in chk.obs if o.rule == "Q2-periodic-fold"]
+    return bool(obs) and all(o.status == HOLDS for o in obs)
+
+
 def uniform_cubic_integrals(chk):
     smod = chk.mod(U.SPLINES)
     fn = chk.func(U.SPLINES, BI)
     bodies = {(cu, per): Specialiser(smod, "BSplines", facts=_facts(cu, per)).run("_build_integrals")
               for cu in (True, False) for per in (True, False)}
+    # ASSUMPTION of the VIOLATED verdicts on the periodic storage (number of entries, content of the wrapped entries): the consumer folds the
+    # last `degree` entries onto the first ones.  Established by rule Q2; a consumer that does not (the fold moved into the producer) makes
+    # another layout right, and these verdicts UNDECIDED.
+    folds = _consumer_folds(chk)
     # ---- storage: ncells + degree entries on every kind of space
     okh, badh, node = True, None, fn
     for (cu, per), body in bodies.items():
@@ -952,6 +1043,11 @@ def uniform_cubic_integrals(chk):
         if size is None:
             okh = None if okh else okh
         elif not _same(size, NC + D):
+            if per and not folds:
+                okh = None if okh else okh
+                badh = (f"`{src(allocs[0])}` has {size} entries on a periodic space, and the quadrature was not established to fold the last "
+                        "`degree` entries onto the first ones: which layout the two sides agree on is not decided")
+                continue
             okh, node = False, allocs[0]
             badh = (f"`{src(allocs[0])}` has {size} entries on a {'periodic' if per else 'clamped'} space: the integrals are those of the "
                     "ncells + degree unwrapped basis functions (on a periodic space the degree wrapped copies included)")
@@ -1005,6 +1101,10 @@ def uniform_cubic_integrals(chk):
     if decided:
         if seg["first"] == "dx" and seg["wrapped"] == "0":
             okper = True
+        elif not folds:
+            okper = None
+            badper = (f"on a periodic uniform cubic space the n basis functions get `{seg['first']}` and the wrapped copies `{seg['wrapped']}`; the "
+                      "quadrature was not established to fold the wrapped copies onto the first entries: not decided")
         else:
             okper = False
             badper = (f"on a periodic uniform cubic space the n basis functions get `{seg['first']}` and the wrapped copies `{seg['wrapped']}`: "
@@ -1031,10 +1131,14 @@ def uniform_cubic_integrals(chk):
         return b is not None and b.get("dx", next(iter(dx_names), None)) in dx_names and ("values" not in b or b["values"] in val_names)
     okint = has("self._integrals[:] = dx") or contains(cu, "self._integrals[:] = self.knots[2]")
     old_int = has("self._integrals[d:-d] = dx") or has("self._integrals[self.degree:-self.degree] = dx") or has("self._integrals[3:-3] = dx")
+    # ASSUMPTION of VIOLATED: spaces with fewer than three cells take the same statements - no branch on the number of cells treats them apart
+    small_case = any(isinstance(st, ast.If) and any(isinstance(x, ast.Attribute) and x.attr in ("ncells", "_ncells") or
+                                                    (isinstance(x, ast.Name) and "ncell" in x.id.lower()) for x in ast.walk(st.test))
+                     for st in _flat(cu))
     chk.pat("Q3-uniform-cubic", fn, "clamped uniform cubic: all integrals start from dx", okint,
             "a cardinal cubic B-spline integrates to dx; boundary functions lose the part outside the domain (next rule)",
             ("only the interior entries `[d:-d]` are set to dx: with fewer than three cells there is no interior and a function that "
-             "reaches both boundaries gets one end's value only") if old_int and not okint else None,
+             "reaches both boundaries gets one end's value only") if old_int and not okint and not small_case else None,
             file=U.SPLINES, func=BI)
     # auxiliary construction: knots = linspace(x0, x0 + 11 dx, 12), test point = x0 + 4 dx  (same origin x0)
     xmin, dx = sp.symbols("xmin dx", real=True)
@@ -1098,8 +1202,19 @@ def uniform_cubic_integrals(chk):
             spacing = alg_equal(step_, dx)
             rel = alg_equal(t - a, 4 * dx)
             ok = bool(spacing and rel)
+            if not ok:
+                # ASSUMPTION of VIOLATED: the construction is the reference one (12 knots, quartic values taken in the 5th interval).  What the
+                # property needs is that the point sits at a FIXED number of cells from the first auxiliary knot; a distance that depends on
+                # where the domain starts, or a spacing that is not dx, is wrong whatever the construction; another fixed distance belongs
+                # to another (possibly equivalent) construction: UNDECIDED.
+                dist = sp.simplify(t - a)
+                if spacing and not (dist.free_symbols & {xmin}) and sp.simplify(dist / dx).is_number:
+                    ok = None
             why = ("the auxiliary uniform knot vector has spacing dx and the evaluation point is 4 cells from ITS first knot: the "
                    "boundary integrals do not depend on where the domain starts") if ok else \
+                (f"auxiliary knots start at {a} with spacing {step_}, evaluation point {t}: a fixed {sp.simplify((t - a) / dx)} cells from the first "
+                 "knot, not the 4 of the reference construction - whether the values read afterwards fit this other construction is not followed") \
+                if ok is None else \
                 (f"auxiliary knots start at {a} with spacing {step_}, evaluation point {t}: the point is {sp.simplify(t - a)} "
                  "from the first knot instead of 4 dx - for a domain that does not start at the knot origin the boundary integrals are wrong")
         except Undecided as e:
@@ -1107,6 +1222,21 @@ def uniform_cubic_integrals(chk):
     chk.ob("Q3-uniform-cubic", kn_node if kn_node is not None else fn, "auxiliary knots and test point share one origin", ok, why, file=U.SPLINES,
            func=BI)
     okb, badb, nodeb = boundary_reduction(cu, dx_names, val_names)
+    if okb is False:
+        # ASSUMPTION of VIOLATED: the statements the reading has interpreted (the initial fill, the reductions) are ALL the statements that
+        # change the integrals on this path.  Any other store into them, or a call that receives the array, may complete the job.
+        writers = [st for st in _flat(cu) if (isinstance(st, (ast.Assign, ast.AugAssign)) and
+                                               any(isinstance(t_, ast.Subscript) and _is_integrals(t_.value)
+                                                   for t_ in (st.targets if isinstance(st, ast.Assign) else [st.target]))) or
+                   (isinstance(st, ast.Expr) and isinstance(st.value, ast.Call) and any(_is_integrals(a_) for a_ in st.value.args))]
+        known = [st for st in writers if (isinstance(st, ast.Assign) and isinstance(st.targets[0].slice, ast.Slice) and
+                                          st.targets[0].slice.lower is None and st.targets[0].slice.upper is None and
+                                          not any(_is_integrals(y) for y in ast.walk(st.value))) or
+                 (isinstance(st, ast.AugAssign) and isinstance(st.op, ast.Sub)) or
+                 (isinstance(st, ast.Expr) and src(st.value.func) in ("np.subtract.at", "numpy.subtract.at"))]
+        if len(known) != len(writers):
+            other = next(st for st in writers if st not in known)
+            okb, badb = None, (badb or "") + f" - but `{src(other)[:60]}` also writes the integrals, in a way the reading does not interpret: not decided"
     assigned = [st for st in _flat(cu) if isinstance(st, ast.For) and
                 [x for x in ast.walk(st) if isinstance(x, ast.Assign) and isinstance(x.targets[0], ast.Subscript) and _is_integrals(x.targets[0].value)
                  and src(x.targets[0].slice).replace(" ", "") in ("i", "-i-1", "-1-i", "-(i+1)")
@@ -1165,9 +1295,18 @@ def uniform_cubic_integrals(chk):
                 badw = (f"`{src(mirror[0])}` copies the integrals of the wrapped functions from the first ones in reverse order: that "
                         "is their value only when the break points are symmetric (uniform grids); on a periodic non-uniform space "
                         "the stored integrals, and the quadrature weights, are wrong (weights do not sum to the domain length)")
-            elif len(loops) == 1:
-                badw = ("only the first nbasis integrals are computed: on a periodic space the wrapped functions ncells..ncells+d-1 "
-                        "keep uninitialised values")
+            elif len(loops) == 1 and folds:
+                # ASSUMPTION of VIOLATED: nothing else gives the wrapped entries a value (no other store into the integrals on this path)
+                # and the consumer adds them onto the first entries (rule Q2): whatever they hold is then counted
+                other_w = [st for st in _flat(gen) if st is not loops[0] and not any(st is y for y in ast.walk(loops[0])) and
+                           isinstance(st, (ast.Assign, ast.AugAssign)) and
+                           any(isinstance(t_, ast.Subscript) and _is_integrals(t_.value) for t_ in (st.targets if isinstance(st, ast.Assign) else [st.target]))]
+                alloc_ = [st for st in _flat(gen) if isinstance(st, ast.Assign) and _is_integrals(st.targets[0]) and isinstance(st.value, ast.Call)]
+                zeroed = any(src(a_.value.func) == "np.zeros" for a_ in alloc_)
+                if not other_w and not zeroed:
+                    badw = ("only the first nbasis integrals are computed: on a periodic space the wrapped functions ncells..ncells+d-1 "
+                            "keep uninitialised values")
+                # (entries that stay 0: right when the first nbasis entries hold the integrals over the whole period - not decided)
     chk.pat("Q3-integrals-storage", loops[0] if loops else fn, "general: for i in range(self.ncells + d) with one formula", okw,
             "every unwrapped basis function, the wrapped copies of a periodic space included, is integrated by the same antiderivative "
             "identity", badw, file=U.SPLINES, func=BI)
@@ -1218,7 +1357,7 @@ def general_single_formula(chk, fn, bodies):
 def integrals_not_memoised_on_summary(chk):
     """the stored integrals are a function of ALL break points: a memo table may not be keyed on a summary of them"""
     fn = chk.func(U.SPLINES, BI)
-    hits = []
+    hits, vague = [], []
     for n in ast.walk(fn):
         if isinstance(n, ast.If) and isinstance(n.test, ast.Compare) and len(n.test.ops) == 1 and isinstance(n.test.ops[0], (ast.In, ast.NotIn)):
             # a table looked up by a key: the integrals are taken from it on one arm
@@ -1229,9 +1368,25 @@ def integrals_not_memoised_on_summary(chk):
             if not takes:
                 continue
             key = n.test.left
-            if isinstance(key, ast.Name):
-                d = [a for a in ast.walk(fn) if isinstance(a, ast.Assign) and src(a.targets[0]) == key.id]
-                key = d[0].value if len(d) == 1 else key
+            # ASSUMPTION of VIOLATED: the whole key is seen.  Names in it are replaced by their (single) definitions, repeatedly; a name
+            # of the key that is defined more than once or not by a plain assignment leaves the key unknown (`unresolved`).
+            unresolved = False
+            for _round in range(4):
+                names_ = {x.id for x in ast.walk(key) if isinstance(x, ast.Name) and isinstance(x.ctx, ast.Load)}
+                env_ = {}
+                for nm in names_:
+                    d = [a for a in ast.walk(fn) if isinstance(a, (ast.Assign, ast.AugAssign, ast.For, ast.With)) and
+                         any(isinstance(y, ast.Name) and y.id == nm and isinstance(y.ctx, ast.Store) for y in ast.walk(a))]
+                    if not d:
+                        continue
+                    if len(d) == 1 and isinstance(d[0], ast.Assign) and len(d[0].targets) == 1 and isinstance(d[0].targets[0], ast.Name):
+                        env_[nm] = d[0].value
+                    else:
+                        unresolved = True
+                if not env_:
+                    break
+                from .C07 import _Sub, clone as _clone
+                key = _Sub(env_).visit(_clone(key))
             # local names of the key that stand for the break points / knots
             arrs = {}
             for a in ast.walk(fn):
@@ -1245,6 +1400,10 @@ def integrals_not_memoised_on_summary(chk):
                      and is_pts(x.value)]
             whole = [x for x in ast.walk(key) if (isinstance(x, ast.Call) and src(x.func) in ("tuple", "bytes") and x.args and is_pts(x.args[0])) or
                      (isinstance(x, ast.Call) and isinstance(x.func, ast.Attribute) and x.func.attr in ("tobytes", "tostring") and is_pts(x.func.value))]
+            hashed = [x for x in ast.walk(key) if isinstance(x, ast.Call) and src(x.func).split(".")[-1] in ("hash", "sha1", "md5", "sha256", "crc32", "id")]
+            if unresolved or (hashed and not whole):
+                picks, whole = [], []           # the key is not fully seen / digests something that is not followed: not decided
+                vague.append(n)
             hits.append((n, key, picks, whole))
     bad = [(n, key, picks) for n, key, picks, whole in hits if picks and not whole]
     chk.ob("Q3-integrals-not-memoised", bad[0][0] if bad else fn, "no memo table keyed on a summary of the break points",
